@@ -171,8 +171,12 @@ def variants_for(pid: str) -> List[V]:
             if pid in [c.get("check") for c in meta.get("caught_by", [])]:
                 vs.append(PV(f"seeded/{d.name}", str(d / "patch.diff"), "*", "independent seeded change written against " + meta.get("property", "?")))
     # hand-made multi-line edits kept as diffs: sa/variants/patches/<property>/<name>.diff must be reported by that property
+    # (files named twin_*.diff are behaviour-preserving counterparts: no check of this property may react)
     for f in sorted((report.VERIF / "sa" / "variants" / "patches" / pid).glob("*.diff")):
-        vs.append(PV(f"patches/{pid}/{f.stem}", str(f), "*", "value-altering operation inserted after the computation"))
+        if f.stem.startswith("twin_"):
+            vs.append(PV(f"patches/{pid}/{f.stem}", str(f), None, "hand-made behaviour-preserving counterpart of a reported edit"))
+        else:
+            vs.append(PV(f"patches/{pid}/{f.stem}", str(f), "*", "hand-made multi-line edit that breaks the property"))
     # independent behaviour-preserving refactorings (of any property's code): no check may react
     for d in sorted((report.VERIF / "refactors").glob("C*-R*")):
         if (d / "patch.diff").exists():
